@@ -808,6 +808,9 @@ func signature(b kit.V) string {
 
 // ---------------------------------------------------------------- replay
 
+// number of divergences that carry the complete behaviour (bounds the report size)
+var storedBehaviours int
+
 type replayOpts struct {
 	property string // "C01" or "C02"
 }
@@ -830,7 +833,9 @@ func replayBehaviour(t testing.TB, env *venv, rep *kit.Report, b kit.V, idx int,
 		}
 		diverged[key] = true
 		c := map[string]interface{}{"index": idx, "signature": sig, "class": b.Get("class").Str()}
-		if rep.NDivergences() < 12 {
+		propertyLevel := !strings.HasPrefix(class, "conf")
+		if (propertyLevel && storedBehaviours < 40) || storedBehaviours < 10 {
+			storedBehaviours++
 			c["behaviour"] = b.X // complete behaviour: ./vcheck <ID> --replay <file> re-runs it
 		}
 		rep.Diverge(key, what, c, exp, obs)
